@@ -35,6 +35,9 @@ Inductive case :=
 (* compute_output_geobox / GeoBox.to_crs; B, dst, dunits, fit observed inside the call *)
 | COut (s : src) (dst dunits : Z) (B : bbox) (fit : Q) (rq : res_req) (shape : option shape_req)
        (tight : bool) (anc : anchor) (tol : Q) (rr : rr_mode) (expect : res outcome)
+(* same call, but only the pixel size of the result is compared (float-inexact offsets) *)
+| COutRes (s : src) (dst dunits : Z) (B : bbox) (fit : Q) (rq : res_req) (shape : option shape_req)
+       (tight : bool) (anc : anchor) (tol : Q) (rr : rr_mode) (expect : res (option (Q * Q)))
 (* norm_crs('utm*', ctx) with the candidate list / overlaps / zone letters observed *)
 | CUtm (rq : utm_req) (cands : list (Z * Q)) (area_big : bool) (letters : list (Z * zone_letter))
        (expect : res Z).
@@ -47,5 +50,12 @@ Definition check (c : case) : bool :=
   | CFromBbox B crs tight shape r anc tol e => res_eqb gbox_eqb (from_bbox B crs tight shape r anc tol) e
   | COut s dst du B fit rq shape tight anc tol rr e =>
       res_eqb outcome_eqb (compute_output_geobox s dst du B fit rq shape tight anc tol rr) e
+  | COutRes s dst du B fit rq shape tight anc tol rr e =>
+      res_eqb (opt_eqb (pair_eqb Qeqb Qeqb))
+        (match compute_output_geobox s dst du B fit rq shape tight anc tol rr with
+         | Ok OSame => Ok None
+         | Ok (ONew g) => Ok (Some (aa (g_aff g), ae (g_aff g)))
+         | Err x => Err x
+         end) e
   | CUtm rq cands big letters e => res_eqb Z.eqb (norm_crs_utm rq cands big (letter_of letters)) e
   end.
